@@ -84,6 +84,12 @@ SCENARIOS = {
         fragment Other on User @mixin(from: "pyvc_mixins", import: "OpFieldMixin") { name }
         query GetMe { me @mixin(from: "pyvc_mixins", import: "OpFieldMixin") @mixin(from: "pyvc_mixins", import: "SecondMixin") { id ...WithTwo ...Other } }
     """, {"get_me": {"GetMeMe": ["OpFieldMixin", "SecondMixin", "WithTwo", "Other"]}, "fragments": {"WithTwo": ["FragDefMixin", "SecondMixin"], "Other": ["OpFieldMixin"]}}),
+    "inline-fragment-two-named-fragments-below-the-interface-field": ("""
+        query GetNode { node { ...Outer } }
+        fragment Outer on Node { id ... on Bot { model } ...Inner }
+        fragment Inner on Node { id ... on User { ...UserBits } }
+        fragment UserBits on User { name }
+    """, {"get_node": {"GetNodeNodeUser": ["UserBits"], "GetNodeNodeBot": ["BaseModel"]}, "fragments": {"UserBits": ["BaseModel"]}}),
     "fragment-on-interface-spread-inside-an-inline-fragment-on-that-interface": ("""
         fragment NodeFields on Node { id }
         query GetMe { me { ... on Node { ...NodeFields } name } }
